@@ -44,3 +44,8 @@ claim("C11",
       "Decides the premises from which the 128-name bijection follows: the name pattern is anchored and consists of exactly a pitch and an octave group with small finite languages (regexp/syntax), the pitch lookup is checked on its miss edge (or the group's language is a subset of the table keys), the two tables are inverse bijections over the 12 chromatic names, the 8-bit formula with its range test accepts exactly the (octave, pitch) pairs whose mathematical value is in 0..127 and returns that value (the returned SSA term and its guards are evaluated abstractly over the groups' finite languages), and NoteToPitch/NoteToOctave invert it on 0..127.",
       COMMON_NOTE + " regexp/syntax is used to read the constant pattern; strconv.Atoi and regexp matching semantics are trusted.",
       "constant-table and regex-language analysis (go/ast, regexp/syntax) + abstract evaluation of SSA path terms over finite value sets")
+
+claim("C09",
+      "A complete inventory of the instructions that can raise a Go run-time panic in the HIDI-owned code reachable from ParseData / readDeviceConfig / LoadHIDIConfig (nil dereference of optional decoded pointers, integer division, indexing, nil-map stores, explicit panics, unchecked assertions), each discharged by a dominating guard on the same access path, an interval fact or a length fact (incl. regexp submatch lengths from the constant pattern); plus a termination shape rule (only range / counted loops, no recursion, no channel operations) and an error-discipline rule (every error result is tested and its failure edge cannot reach a success return). Positive/negative controls keep the generic rules alive. NOT decided: panics or hangs inside the third-party TOML decoder, which is called without a recover guard.",
+      COMMON_NOTE + " The TOML decoder, strconv and regexp are trusted to return for every input.",
+      "may-panic inventory over go/ssa discharged by dominating guards/intervals keyed by access path; CFG loop classification; error-edge reachability (with controls)")
